@@ -231,8 +231,8 @@ class HardswishFam(Family):
     def finding(self, c):
         if c["kind"] == "hs2":
             return None
-        exact = (c["cmin"], c["cmax"], c["bias"], c["div"]) == (0.0, 6.0, 3.0, 6.0)
-        return None if exact else "C05-N8"
+        # C05-N8 (constants within rel_tol 1e-4) is fixed in /repo (9b9326e): exact compare; witness in the corpus
+        return None
 
 
 class ConvAffineFam(Family):
